@@ -126,7 +126,7 @@ def skipWs : Nat → TR → TR
   | 0, t => t
   | fuel+1, t =>
     match readByte t with
-    | (.byte c, t1) => if c == 10 || c == 32 || c == 13 then skipWs fuel t1 else unreadByte t1
+    | (.byte c, t1) => if c == 10 || c == 32 || c == 9 || c == 13 then skipWs fuel t1 else unreadByte t1
     | (_, t1) => t1
 
 def blockLoop : Nat → TR → List Byte → Byte → Token × TR
